@@ -6,6 +6,9 @@ const lmdbPkg = "github.com/PowerDNS/lmdb-go/lmdb"
 // harness runtime package) that are executed symbolically in their place.
 var redirectTable = map[string]string{
 	zzPath + ".NewEnv":                  zzPath + ".MNewEnv",
+	zzPath + ".TxnCounts":               zzPath + ".MTxnCounts",
+	repoMod + "/snapshot.DumpData":      repoMod + "/snapshot.VDumpData",
+	repoMod + "/snapshot.LoadData":      repoMod + "/snapshot.VLoadData",
 	"(*" + lmdbPkg + ".Env).Info":       zzPath + ".MEnvInfo",
 	"(*" + lmdbPkg + ".Env).View":       zzPath + ".MEnvView",
 	"(*" + lmdbPkg + ".Env).Update":     zzPath + ".MEnvUpdate",
